@@ -47,12 +47,14 @@ Fixpoint parse_val (fuel : nat) (s : string) : option (val * string) :=
       if Ascii.eqb c "F" then Some (VBool false, t) else
       if Ascii.eqb c "I" then
         let '(neg, t1) := match t with String "-" t' => (true, t') | _ => (false, t) end in
-        match parse_nat_until ";" t1 with
-        | Some _ =>
-          let '(ds, rest) := take_digits t1 "" in
-          let z := digits_val ds 0 in
-          Some (VInt (if neg then (- z)%Z else z), drop_chars 1 rest)
-        | None => None
+        (* integers may be far too large for a unary nat: parse the digits straight into Z *)
+        let '(ds, rest) := take_digits t1 "" in
+        match ds, rest with
+        | String _ _, String c r =>
+          if Ascii.eqb c ";" then
+            let z := digits_val ds 0 in Some (VInt (if neg then (- z)%Z else z), r)
+          else None
+        | _, _ => None
         end else
       if Ascii.eqb c "S" then
         match parse_raw_string t with Some (x, r) => Some (VStr x, r) | None => None end else
